@@ -14,7 +14,7 @@ from spec import increments as SI
 
 MANIFEST = dict(
     category="proof",
-    technique="symbolic execution of the real compute_increments_from_imu on a pandas DataFrame of sympy reals with symbolic (irregular) time stamps; Taylor coefficients h^1..h^3 compared with the exact Bortz / rotated-specific-force series; float64 stand-in: bit-identical increments under an exact shift of the time origin (accuracy independent of the size of the time tags); Every claim is also checked for call history: the real code is run twice in the same symbolic world (primed inputs first; same captured objects and module state) and the second result must still meet the contract on every path a concrete witness input takes; value-dependent branches inside a claim are explored path by path. The frame obligations (C19's analysis) of the modules under contract are re-established under this property's name.",
+    technique="symbolic execution of the real compute_increments_from_imu on a pandas DataFrame of sympy reals with symbolic (irregular) time stamps; Taylor coefficients h^1..h^3 compared with the exact Bortz / rotated-specific-force series; float64 stand-in: bit-identical increments under an exact shift of the time origin (accuracy independent of the size of the time tags); Every claim is also checked for call history: the real code is run twice in the same symbolic world (primed inputs first; same captured objects and module state) and the second result must still meet the contract on every path a concrete witness input takes; value-dependent branches inside a claim are explored path by path. The frame obligations (C19's analysis) of the modules under contract are re-established under this property's name.; Bounded stand-ins shared by all properties (labelled bounded, never counted as proved): the argument-form battery of the modules under contract (batches of 1 and 1200 rows, integer-typed values, labels / columns in other orders, extra labels); where the frame analysis finds state that outlives a call (a cache, a memo) the frame obligation becomes a dynamic purity contract against pristine process states; names the proofs replace by scipy contracts are checked to be bound to the library's functions (else a differential test).",
     text="The real function is executed on symbolic rate and increment samples of signals linear in time (symbolic 3-vectors a,b,c,d, symbolic interval ratios, so irregular stamps are covered) and the coefficients of h, h^2, h^3 of each rotation vector and velocity increment are proved equal to those of the exact solution (Bortz equation solved by Picard iteration; specific force rotated into the start-of-interval frame), the only admitted cubic discrepancy being the neglected second-order rotation term a x (a x c) h^3/6. Output schema (rows, index, dt column, columns) is read off the executed result. For general smooth signals the order statement follows by Taylor's theorem (assumed).",
     note="A1-A6; Taylor's theorem; pandas object-dtype DataFrame operations executed, not modelled. Known finding F10: for increment-type input with unequal consecutive intervals the fixed 1/12 coning/sculling coefficient is not exact in the cubic term.",
 )
